@@ -56,6 +56,9 @@ type PkgDecl struct {
 	Types       []*TypeDecl
 	FuncTest    bool // F<name>() is @testonly
 	FuncPkgOnly [][]string
+	Hidden      bool       // the package has an unexported @immutable type u<qual>, handed out by GetU<Qual>()
+	HiddenMutB  bool       // ... whose field B is @mutable
+	UnsafeFirst bool       // its files import "unsafe" before the world imports
 	Reexports   []Reexport // GetX<Type>() returning a type of an imported package
 	Imports     []int
 	AliasImport bool // importers write an explicit alias
@@ -84,6 +87,8 @@ type GenOpt struct {
 	Flat             bool // allow worlds of unrelated packages (C11)
 	NeedDepth2       bool // force a chain a <- b <- c (C06)
 	CleanChance      int  // out of 4: worlds without @ignore comments and exclude-checks (expectation oracles apply)
+	MultiModule      bool // some packages belong to a second, versioned module (simulated drivers only)
+	StdImports       bool // some files import "unsafe" ahead of their world imports
 	DirExclude       bool // exclude-paths may name a directory of the world
 	ReadFaults       bool // some files are unreadable / short at report time, identically in every execution
 	LineDirectives   bool // //line directives in use files (non-clean worlds only)
@@ -97,6 +102,7 @@ var junkPkgs = []string{"nosuch", "github.com/x/y-z.v2", "a/b/c", "util", "x.y/z
 // Generate draws a world. Draw 0 is always the simplest alternative.
 var ctorFnTaken map[int]map[string]bool
 var longLines, lineDirectives bool
+var depModuleUpTo int // packages with a smaller index belong to the dependency module
 
 // filler is comment text of n bytes with a few tabs and multi-byte runes.
 func filler(d drw, n int) string {
@@ -121,6 +127,7 @@ func Generate(t Drawer, opt GenOpt) (*World, *Meta) {
 	ctorFnTaken = map[int]map[string]bool{}
 	longLines = opt.LongLines
 	lineDirectives = opt.LineDirectives
+	depModuleUpTo = 0
 	w := &World{Module: "ex.test/w"}
 	m := &Meta{}
 	n := d.rng(opt.MinPkgs, opt.MaxPkgs)
@@ -173,6 +180,7 @@ func Generate(t Drawer, opt GenOpt) (*World, *Meta) {
 			pd.Pad = []int{3000, 30000}[d.Draw(2)]
 		}
 		pd.UsesFirst = d.chance(1, 4)
+		pd.UnsafeFirst = opt.StdImports && d.chance(1, 5)
 		if pd.TwinOf >= 0 {
 			src := m.Decls[pd.TwinOf]
 			pd.Pad, pd.UsesFirst, pd.AliasImport = src.Pad, src.UsesFirst, true
@@ -198,6 +206,9 @@ func Generate(t Drawer, opt GenOpt) (*World, *Meta) {
 			}
 		}
 		m.Decls = append(m.Decls, pd)
+	}
+	if opt.MultiModule && n > 2 && d.chance(1, 6) {
+		depModuleUpTo = d.rng(1, n-1)
 	}
 	if opt.DirExclude && n > 2 && d.chance(1, 5) {
 		// a non-default exclude-paths pattern that names a directory of the world
@@ -306,6 +317,7 @@ func cloneDecls(m *Meta, pd *PkgDecl) {
 		pd.Types = append(pd.Types, &c)
 	}
 	pd.FuncTest, pd.FuncPkgOnly = src.FuncTest, src.FuncPkgOnly
+	pd.Hidden, pd.HiddenMutB = src.Hidden, src.HiddenMutB
 	pd.Reexports = append([]Reexport(nil), src.Reexports...)
 }
 
@@ -406,6 +418,8 @@ func genDecls(d drw, w *World, m *Meta, pd *PkgDecl) {
 	}
 	pd.FuncTest = d.chance(1, 4)
 	pd.FuncPkgOnly = genPkgOnly(d, m, pd)
+	pd.Hidden = d.chance(1, 4)
+	pd.HiddenMutB = d.chance(1, 2)
 	for _, j := range pd.Imports {
 		dep := m.Decls[j]
 		if len(dep.Types) > 0 && d.chance(1, 2) {
@@ -448,10 +462,18 @@ func pkgOnlyLines(s *src, indent string, lists [][]string) {
 }
 
 func importLines(s *src, m *Meta, deps []int) {
-	if len(deps) == 0 {
+	importLinesStd(s, m, deps, false)
+}
+
+func importLinesStd(s *src, m *Meta, deps []int, withUnsafe bool) {
+	if len(deps) == 0 && !withUnsafe {
 		return
 	}
 	s.ln("import (")
+	if withUnsafe {
+		s.ln("\t\"unsafe\"") // the go command never vets "unsafe": no fact file exists for it
+		s.ln("")
+	}
 	for _, j := range deps {
 		dep := m.Decls[j]
 		if dep.AliasImport || dep.Qual != dep.Name {
@@ -585,6 +607,25 @@ func renderDecl(d drw, w *World, m *Meta, pd *PkgDecl) File {
 		s.ln("func (t %s) VM() int { return t.B }", td.Name)
 		s.ln("")
 	}
+	if pd.Hidden {
+		// an unexported annotated type whose values leave the package
+		s.ln("// u%s is not exported, its values are.", pd.Qual)
+		s.ln("// @immutable")
+		s.ln("// @constructor newU%s", pd.Qual)
+		s.ln("type u%s struct {", pd.Qual)
+		s.ln("\tA int")
+		if pd.HiddenMutB {
+			s.ln("\t// @mutable")
+		}
+		s.ln("\tB int")
+		s.ln("}")
+		s.ln("")
+		s.ln("func newU%s() *u%s { return &u%s{} }", pd.Qual, pd.Qual, pd.Qual)
+		s.ln("")
+		s.ln("// GetU%s hands out the unexported type.", pd.Qual)
+		s.ln("func GetU%s() *u%s { return newU%s() }", pd.Qual, pd.Qual, pd.Qual)
+		s.ln("")
+	}
 	if pd.FuncTest {
 		s.ln("// @testonly")
 	}
@@ -649,7 +690,10 @@ func renderUses(d drw, w *World, m *Meta, pd *PkgDecl, fileName string, nfuncs i
 	s := &src{}
 	s.ln("package %s", pd.Name)
 	s.ln("")
-	importLines(s, m, pd.Imports)
+	importLinesStd(s, m, pd.Imports, pd.UnsafeFirst)
+	if pd.UnsafeFirst {
+		s.ln("var _ = unsafe.Sizeof(0)")
+	}
 	for _, j := range pd.Imports {
 		s.ln("func anchor%s%s() int { return %s.%s() }", strings.TrimSuffix(strings.ReplaceAll(fileName, ".", "_"), "_go"), m.Decls[j].Qual, m.Decls[j].Qual, m.Decls[j].AnchorName())
 	}
@@ -726,6 +770,21 @@ func renderUses(d drw, w *World, m *Meta, pd *PkgDecl, fileName string, nfuncs i
 			s.ln("}")
 			s.ln("")
 		}
+		if dep.Hidden && d.chance(2, 3) {
+			s.ln("func hid_%s_%d() {", tag, fn)
+			fn++
+			s.ln("\tu := %sGetU%s()", qual, dep.Qual)
+			for _, l := range []string{"u.A = 21", "u.B++", "u.A += 2"} {
+				if !d.chance(2, 3) {
+					continue
+				}
+				line := s.ln("\t%s", l)
+				m.Uses = append(m.Uses, UseSite{ID: len(m.Uses), Pkg: pd.Index, File: fileName, Line: line, Dep: j, Shape: "hidden:" + l, Text: l, Type: "u" + dep.Qual})
+			}
+			s.ln("\t_ = u")
+			s.ln("}")
+			s.ln("")
+		}
 		// a function of THIS package that carries the name of a constructor of an
 		// imported type: gogreement exempts by function name, so what it reports in
 		// there depends on the imported constructor list arriving intact
@@ -785,6 +844,9 @@ func renderUses(d drw, w *World, m *Meta, pd *PkgDecl, fileName string, nfuncs i
 
 func renderPkg(d drw, w *World, m *Meta, pd *PkgDecl) {
 	p := Pkg{Path: pd.Path, Name: pd.Name}
+	if pd.Index < depModuleUpTo {
+		p.ModPath, p.ModVersion = "ex.test/depmod", "v1.4.0"
+	}
 	for _, j := range pd.Imports {
 		p.Imports = append(p.Imports, m.Decls[j].Path)
 	}
